@@ -662,6 +662,9 @@ def c11_job(chk, rng, i):
         if rng.chance(50):
             j = rng.below(nstr)
             strs[j] = strs[j][:5] + b"\x00" + strs[j][5:]
+        if rng.chance(50):
+            j = rng.below(nstr)
+            strs[j] = strs[j] + b"\x00"        # NUL as the very last byte handed to yy_scan_bytes
         if reuse:
             srcs = [x.rstrip(b"\n") + rng.choice([b"", b"ab", b"x"]) for x in srcs]
         inp = {"sources": srcs, "strings": strs, "sched": rng.choice([[0], [1], [2, 3], [7]])}
@@ -726,11 +729,14 @@ def c03_job(chk, rng, i):
         for sch, bs in combos:
             inputs.append({"sources": [s], "sched": sch, "bufsize": bs, "key": k})
     fl = rotate(i, FLAV3)
-    tb = rotate(i // 3, ["", "-Cem", "-C", "-Cfe", "-CFe", "-Ca"])
+    tb = rotate(i // 3, ["", "-Cem", "-C", "-Cfe", "-CFe", "-Ca", "-Cf", "-CF"])
     if reject_case:
         tb = rotate(i // 3, ["", "-Cem", "-C"])
     full = ("f" in tb or "F" in tb)
     base = {"flavour": fl, "flexargs": lib.tables_args(tb, 8)}
+    if i % 4 == 0:
+        # %array: a yymore() prefix has to survive a refill inside the continued token
+        base["opts"] = {"array": True}
     configs = [dict(base)]
     kind = i % 4
     # other input paths (default back end): stdio batch, stdio interactive (getc), read(2)
